@@ -1,4 +1,5 @@
 """C13 — point containment predicates (structural clauses)."""
+from . import scopes
 from ..core.report import DOMAIN_D
 from ..rules import colliders, frame, degree
 from .common import e2
@@ -7,6 +8,7 @@ MODS = {"distance3d.containment_test", "distance3d.utils"}
 
 
 def run(idx, rep, tier):
+    rep.set_scope(scopes.scope(idx, "C13"))
     rep.explanation = (
         "R-CLOSEDSET: inclusion comparisons of the eight predicates are non-strict, exclusion masks strict (closed shapes), "
         "reductions only over axis=1 (element-wise over the batch). R-FRAME (engine E2): world points are brought into the "
@@ -17,5 +19,5 @@ def run(idx, rep, tier):
     colliders.r_closedset(idx, rep)
     colliders.r_axis(idx, rep)
     fr_rets = e2(idx)
-    frame.r_frame(idx, rep, fr_rets, modules=MODS, floor=10)
+    frame.r_frame(idx, rep, fr_rets, modules=MODS, floor=8)
     degree.r_degree(idx, rep, modules=sorted(MODS), floor=8)
